@@ -55,6 +55,16 @@ CHECKS = {
         note="Trusted: reference matcher incl. the register table, Hypothesis. Deref-field captures are outside the statement; .8H exists only for &genreg.",
         ref="DESIGN.md 4/C05",
     ),
+    "C07": dict(
+        cat="exploration",
+        technique="property-based testing (Hypothesis): broadest rule generator incl. shipped @any macros, validity predicate on every reported match (record alignment, address, left-to-right order) plus reference-matcher membership",
+        text="Rules using every construct (any operator leading, too many operand names, min:0, captures, $deref, shipped @any/@any_shift/@any_rot) on listings "
+        "with optional byte-continuation lines, restarting addresses and an installed-but-transparent address-range observer, in both search modes and both address-only "
+        "settings. Every reported text must be the concatenation of whole stream records i..j-1 in scan order, the address-only value must be addr_i, and (outside "
+        "@any-in-$deref) the span must be one the reference matcher accepts with @any as a one-field wildcard.",
+        note="Trusted: reference matcher, predicted stream (checked against JASM in C08-C10), Hypothesis. Empty matches of nullable rules are not judged here.",
+        ref="DESIGN.md 4/C07",
+    ),
 }
 
 NOT_APPLICABLE = []
